@@ -44,3 +44,15 @@ def _c02_stale_above_spiral(v, scn, params):
         and bool(v.get("reads_later_retained_default"))
         and scn.get("profile") != "acyclic"
     )
+
+
+@matcher("c16_int_truncation")
+def _c16_int_truncation(v, scn, params):
+    """D7: int variable, divide rule, remainder not divisible by the number of
+    unknown sub-periods: the per-sub-period share is truncated."""
+    return (
+        v.get("clause") in ("C16.share", "C16.conserve")
+        and v.get("type") == "int"
+        and v.get("rule") == "divide"
+        and v.get("int_nondivisible") is True
+    )
